@@ -24,13 +24,17 @@ LEVEL_NOTE = "Not decided: the inequality as a number; cross-pool sums."
 PM = "pool_manager"
 FLOORS = {"WHO-outflows": 10, "PROV-deposit-credited": 1, "PROV-withdraw-same-vector": 1}
 
+# kinds of outgoing message per variant, with the recipient / target for transfers and contract calls.  Compared as SETS: merging
+# identical constructor sites (or splitting one into two branches) is behaviour-preserving; a new kind or a new recipient is not
 OUTFLOWS = {
-    ("Swap",): {"msg:BankMsg::Send": 2, "msg:BankMsg::Burn": 1},
-    ("ExecuteSwapOperations",): {"msg:BankMsg::Send": 2, "msg:BankMsg::Burn": 1},
-    ("WithdrawLiquidity",): {"msg:BankMsg::Send": 1, "call:lp_common::burn_lp_asset_msg": 1},
-    ("CreatePool",): {"msg:BankMsg::Send": 1, "call:create_denom::create_denom": 1},
-    ("ProvideLiquidity",): {"call:wasm_execute": 4, "call:lp_common::mint_lp_token_msg": 4, "call:SubMsg::reply_on_success": 1},
-    ("reply",): {"call:wasm_execute": 1},
+    ("Swap",): {"msg:BankMsg::Send->info.sender|msg.Swap.receiver", "msg:BankMsg::Send->Store(CONFIG).fee_collector_addr", "msg:BankMsg::Burn"},
+    ("ExecuteSwapOperations",): {"msg:BankMsg::Send->info.sender|msg.ExecuteSwapOperations.receiver", "msg:BankMsg::Send->Store(CONFIG).fee_collector_addr",
+                                 "msg:BankMsg::Burn"},
+    ("WithdrawLiquidity",): {"msg:BankMsg::Send->info.sender", "call:lp_common::burn_lp_asset_msg"},
+    ("CreatePool",): {"msg:BankMsg::Send->Store(CONFIG).fee_collector_addr", "call:create_denom::create_denom"},
+    ("ProvideLiquidity",): {"call:wasm_execute->env.contract.address", "call:wasm_execute->Store(CONFIG).farm_manager_addr", "call:lp_common::mint_lp_token_msg",
+                            "call:SubMsg::reply_on_success"},
+    ("reply",): {"call:wasm_execute->env.contract.address"},
 }
 
 
@@ -39,9 +43,14 @@ def outflow_sig(A):
     for e in A.outflow_aggs():
         if re.search(r"BankMsg::(Send|Burn)$", e.name):
             k = "msg:" + e.name.replace("cosmwasm_std::", "")
+            if e.name.endswith("Send"):
+                k += "->" + "|".join(sorted(all_origins(A.d(field_val(e, "to_address")))))
             sig[k] = sig.get(k, 0) + 1
     for e in A.calls(r"cosmwasm_std::wasm_execute$"):
-        sig["call:wasm_execute"] = sig.get("call:wasm_execute", 0) + 1
+        da = e.extra.get("dargs", [])
+        tgt = "|".join(sorted(all_origins(da[0]))) if da else "?"
+        k = "call:wasm_execute->" + tgt
+        sig[k] = sig.get(k, 0) + 1
     for e in A.calls(r"cosmwasm_std::SubMsg::<"):
         if e.extra.get("submsg_mode"):
             k = "call:SubMsg::" + {"Success": "reply_on_success", "Error": "reply_on_error", "Always": "reply_always", "Never": "new"}[e.extra["submsg_mode"]]
@@ -64,8 +73,8 @@ def run(W, chk):
         A = W.run(PM, which, vp)
         runs[vp or (which,)] = A
         sig = outflow_sig(A)
-        want = OUTFLOWS.get(vp or (which,), {})
-        chk.expect(sig == want, "WHO-outflows", "/".join(vp or (which,)), "outgoing message constructors: %s" % sig,
+        want = OUTFLOWS.get(vp or (which,), set())
+        chk.expect(set(sig) == set(want), "WHO-outflows", "/".join(vp or (which,)), "outgoing message constructors: %s" % sig,
                    "outgoing messages differ from the effect table: found %s expected %s" % (sig, want), A.entry)
     for c in ("pool_manager",):
         qp, _ = W.variant_paths(c, "query")
@@ -149,6 +158,6 @@ def run(W, chk):
         amt = set(flat_atoms(vfield(vfield(e.extra["dargs"][2], "[*]"), "amount")))
         den = exact_origins(vfield(vfield(e.extra["dargs"][2], "[*]"), "denom"))
         okm = okm and shares is not None and amt == shares and den == {"Store(POOLS).lp_denom"}
-    chk.expect(okm and len(fwd) == 3 and shares is not None, "PROV-lock-forwarded", "ProvideLiquidity",
+    chk.expect(okm and len(fwd) >= 1 and shares is not None, "PROV-lock-forwarded", "ProvideLiquidity",
                "LP minted to the contract for locking is forwarded in full (same value) as funds of the farm-manager call",
                "locked LP: minted-to-self and forwarded amounts differ (forward sites %d)" % len(fwd), where(fwd[0]) if fwd else A.entry)
